@@ -567,4 +567,38 @@ def runBatchNodeIR (fuel : Nat) (f : Func) (kind : CtxKind) (n : NodeId) (v : Na
   | some (rs, _, w) => (outcomeOf rs).map fun o => (w.evs, w.ctx, o)
   | none => none
 
+/-! ### `runBatchConcurrent` on the serial schedule vs `itemsSerialPool` -/
+
+/-- world of `runBatchConcurrent` for the schedule in which every submitted task runs to completion before `Submit`
+    returns (legal for every pool size: it is what one worker does when the submitter is slower than the worker). The pool's
+    `Submit` invokes the closure at once, `Wait` / deferred `Close` / the mutex are no-ops (nothing else runs), and
+    `runExecWithRetries` is the model's `runItemRaw` as in `seqWorld`. Every OTHER schedule of the same closure is the subject of
+    the hand-written LTS `Model/BatchConc.lean`; this world ties the closure's own sequential logic to the model. -/
+def concSerialWorld (kind : CtxKind) (n : NodeId) (v : Nat) (cfg : BatchCfg) (scr : BatchScript) (idxOf : Result → Nat) :
+    World SeqW where
+  call fn args h w :=
+    match fn, args with
+    | "NewWorkerPool", [.int c] => some ([.ref "pool" c.toNat], h, w)
+    | _, _ => (seqWorld kind n v cfg scr idxOf).call fn args h w
+  mcall recv m args h w :=
+    match recv with
+    | .ref "pool" _ => if m == "Wait" ∨ m == "defer:Close" then some ([], h, w) else none
+    | .ref "mutex" _ => if m == "Lock" ∨ m == "Unlock" then some ([], h, w) else none
+    | _ => (seqWorld kind n v cfg scr idxOf).mcall recv m args h w
+  assert := (seqWorld kind n v cfg scr idxOf).assert
+  field _ _ _ := none
+  mapIndex _ _ _ := none
+  select _ _ := none
+  global _ := none
+  invokes r m := match r with | .ref "pool" _ => m == "Submit" | _ => false
+
+def itemsConcSerialIR (fuel : Nat) (f : Func) (kind : CtxKind) (n : NodeId) (v : Nat) (cfg : BatchCfg) (scr : BatchScript)
+    (idxOf : Result → Nat) (items : List Result) (ctx : Ctx) : Option (List Ev × Ctx × List Result) :=
+  let heap : Heap := [items, List.replicate items.length ⟨Val.nil, none⟩]
+  match callFunc (concSerialWorld kind n v cfg scr idxOf) fuel f
+      [ctxH, .node n, .slice 0 0 items.length, .slice 1 0 items.length, .int cfg.conc,
+       .str (if cfg.stop then "stop" else "continue")] heap ⟨[], ctx⟩ with
+  | some ([], h, w) => (h[1]?).map fun slots => (w.evs, w.ctx, slots)
+  | _ => none
+
 end Flyt.GoIR
